@@ -687,6 +687,18 @@ fn gen_store(rng: &mut Rng) -> (Vec<Vec<u8>>, Vec<Vec<u8>>) {
             // sibling or child of an existing name, so that directory and file names share stems
             let base = rng.pick(&names).clone();
             let cut = base.iter().rposition(|b| *b == b'/').unwrap_or(0);
+            // the same short name in another namespace: lookups become ambiguous, the rule order decides
+            let tops: [&[u8]; 4] = [b"refs/heads/", b"refs/tags/", b"refs/remotes/", b"refs/"];
+            let top_of = tops.iter().find(|t| base.starts_with(t));
+            if let (Some(t), true) = (top_of, rng.chance(1, 3)) {
+                let other = tops[rng.below(4) as usize];
+                let mut v = other.to_vec();
+                v.extend_from_slice(&base[t.len()..]);
+                if !names.contains(&v) {
+                    names.push(v);
+                }
+                continue;
+            }
             match rng.below(4) {
                 0 => {
                     let mut v = base.clone();
@@ -805,7 +817,7 @@ fn gen_query(rng: &mut Rng, names: &[Vec<u8>], find: bool) -> Vec<u8> {
         if rng.chance(1, 6) && take > skip + 1 {
             take -= 1;
         }
-        if nm.starts_with(b"refs/remotes/") && nm.ends_with(b"/HEAD") && rng.chance(3, 4) {
+        if nm.starts_with(b"refs/remotes/") && nm.ends_with(b"/HEAD") && nm.len() > 18 && rng.chance(3, 4) {
             return nm[b"refs/remotes/".len()..nm.len() - 5].to_vec();
         }
         let mut q = comps[skip..take].join(&b'/');
@@ -815,14 +827,21 @@ fn gen_query(rng: &mut Rng, names: &[Vec<u8>], find: bool) -> Vec<u8> {
         if q.is_empty() {
             q = b"a".to_vec();
         }
+        if gix_validate::reference::name_partial(q.as_slice().into()).is_err() && rng.chance(3, 4) {
+            return gen_query(rng, names, find);
+        }
         q
     } else {
         // a prefix of a name: cut at a random byte, biased to component boundaries
         let cuts: Vec<usize> = nm.iter().enumerate().filter(|(_, b)| **b == b'/').map(|(i, _)| i).collect();
-        match rng.below(6) {
+        // mostly shallow cuts, so that several references share the prefix
+        let shallow = &cuts[..cuts.len().min(2)];
+        match rng.below(8) {
             0 => nm[..rng.range(1, nm.len() as i64) as usize].to_vec(),
-            1 | 2 => nm[..*rng.pick(&cuts)].to_vec(),
-            3 | 4 => nm[..*rng.pick(&cuts) + 1].to_vec(),
+            1 => nm[..*rng.pick(&cuts)].to_vec(),
+            2 => nm[..*rng.pick(&cuts) + 1].to_vec(),
+            3 | 4 => nm[..*rng.pick(shallow)].to_vec(),
+            5 | 6 => nm[..*rng.pick(shallow) + 1].to_vec(),
             _ => nm.clone(),
         }
     }
